@@ -130,7 +130,12 @@ type frame struct {
 	call   ssa.CallInstruction
 	depth  int
 	uid    int
+	// the current block was entered beyond the visit budget (see run)
+	over                   bool
+	overEffects, overAtoms int
 }
+
+const maxDecidedVisits = 40
 
 type ival struct {
 	lo, hi             constant.Value
@@ -328,9 +333,16 @@ func (se *symExec) run(st *state) {
 			if maxV == 0 {
 				maxV = 2
 			}
+			fr.over = false
 			if fr.visits[fr.block.Index] > maxV {
-				se.finish(st, "cut", nil)
-				return
+				// a loop whose condition is decided by constants known on the path (`for _, s := range [2]string{...}`,
+				// `for i := 0; i < 3; i++`) is followed to its end: the block is entered once more, and the path is cut
+				// as it was on entry if its branch turns out to depend on something unknown
+				if fr.visits[fr.block.Index] > maxDecidedVisits {
+					se.finish(st, "cut", nil)
+					return
+				}
+				fr.over, fr.overEffects, fr.overAtoms = true, len(st.effects), len(st.atoms)
 			}
 		}
 		if fr.idx >= len(fr.block.Instrs) {
@@ -384,6 +396,13 @@ func (se *symExec) run(st *state) {
 					se.gotoBlock(fr, fr.block.Succs[1])
 				}
 				continue
+			}
+			if fr.over {
+				// beyond the visit budget and not decided: the path ends where the block was entered
+				st.effects = st.effects[:fr.overEffects]
+				st.atoms = st.atoms[:fr.overAtoms]
+				se.finish(st, "cut", nil)
+				return
 			}
 			// false branch on a clone
 			for _, taken := range []bool{true, false} {
@@ -451,6 +470,17 @@ func (se *symExec) run(st *state) {
 			v := se.val(st, fr, in.Val)
 			st.store(addr, v)
 			local := rootOp(addr) == "alloc"
+			if !local && rootOp(addr) == "makeslice" {
+				// filling a slice made on this path (`s := make([]T, n); s[i] = x`) is building a value, not writing state -
+				// unless the slice has been put somewhere that is not a local variable in the meantime
+				rt := rootTerm(addr).String()
+				local = true
+				for k, mv := range st.mem {
+					if mv != nil && mv.String() == rt && rootOp(st.memAddr[k]) != "alloc" {
+						local = false
+					}
+				}
+			}
 			st.effects = append(st.effects, Effect{Kind: "store", Instr: in, Fn: fr.fn, Args: []*Term{addr, v}, Depth: fr.depth, Local: local, NAtoms: len(st.atoms)})
 		case *ssa.MapUpdate:
 			m := se.val(st, fr, in.Map)
@@ -797,6 +827,14 @@ func (s *state) load(addr *Term, typ types.Type) *Term {
 			return addr.Args[0].Args[n]
 		}
 	}
+	// element of a slice grown by append on this path from a slice of known length (`s := make([]T, 0, n); s = append(s, k)`)
+	if addr.Op == "indexaddr" && addr.Args[0].Op == "append" {
+		if n, ok := addr.Args[1].IsIntConst(); ok {
+			if el := appendElem(addr.Args[0], n); el != nil {
+				return el
+			}
+		}
+	}
 	// aggregate assembled from component stores
 	key := addr.String()
 	switch u := typ.Underlying().(type) {
@@ -1060,6 +1098,14 @@ func (se *symExec) eval(st *state, fr *frame, v ssa.Value, pristine bool) *Term 
 				case isFn(x) && isNilT(y), isNilT(x) && isFn(y):
 					return constTerm(constant.MakeBool(in.Op == token.NEQ), in.Type())
 				}
+			}
+		}
+		if in.Op == token.EQL || in.Op == token.NEQ {
+			if t := extAsSuffix(x, y, in.Type()); t != nil {
+				if in.Op == token.NEQ {
+					return &Term{Op: "unop", Aux: "!", Args: []*Term{t}, Type: in.Type()}
+				}
+				return t
 			}
 		}
 		return &Term{Op: "binop", Aux: in.Op.String(), Args: []*Term{x, y}, Type: in.Type()}
@@ -1386,6 +1432,12 @@ func (se *symExec) call(st *state, fr *frame, in *ssa.Call) bool {
 				}
 				if _, isSlice := c.Args[0].Type().Underlying().(*types.Slice); isSlice && args[0].Op == "const" && args[0].Cval == nil {
 					fr.vals[in] = intConst(0)
+					return false
+				}
+			}
+			if len(args) == 1 && args[0].Op == "append" && b.Name() == "len" {
+				if n := knownLen(args[0]); n >= 0 {
+					fr.vals[in] = intConst(n)
 					return false
 				}
 			}
@@ -1725,7 +1777,8 @@ func isFloatType(t types.Type) bool {
 func allocRooted(v ssa.Value) bool {
 	for {
 		switch x := v.(type) {
-		case *ssa.Alloc:
+		case *ssa.Alloc, *ssa.MakeSlice:
+			// (a slice made in this function is as fresh as a local variable: filling it changes nothing that existed before)
 			return true
 		case *ssa.FieldAddr:
 			v = x.X
@@ -2027,7 +2080,133 @@ func canonicalCall(callee *ssa.Function, args []*Term) (string, []*Term) {
 			return "io/fs.ReadFile", args
 		}
 	}
+	// fmt.Sprintf with constant strings among its operands: they are written into the format
+	// (Sprintf("%s/%d%s", a, b, "_neg") is Sprintf("%s/%d_neg", a, b))
+	if callee.Pkg != nil && callee.Pkg.Pkg.Path() == "fmt" && callee.Name() == "Sprintf" && len(args) == 2 && args[1].Op == "slicelit" {
+		if f, ok := args[0].IsStringConst(); ok {
+			if nf, nops, changed := inlineConstOperands(f, args[1].Args); changed {
+				return callee.String(), []*Term{constTerm(constant.MakeString(nf), args[0].Type), {Op: "slicelit", Args: nops, Type: args[1].Type}}
+			}
+		}
+	}
 	return callee.String(), args
+}
+
+// inlineConstOperands: plain %s / %v verbs whose operand is a constant string are replaced by that string.
+func inlineConstOperands(format string, ops []*Term) (string, []*Term, bool) {
+	var out strings.Builder
+	var rest []*Term
+	changed := false
+	oi := 0
+	for i := 0; i < len(format); i++ {
+		ch := format[i]
+		if ch != '%' {
+			out.WriteByte(ch)
+			continue
+		}
+		if i+1 >= len(format) {
+			return format, ops, false
+		}
+		if format[i+1] == '%' {
+			out.WriteString("%%")
+			i++
+			continue
+		}
+		j := i + 1
+		for j < len(format) && strings.IndexByte("+-# 0123456789.", format[j]) >= 0 {
+			j++
+		}
+		if j >= len(format) || format[j] == '*' || format[j] == '[' || oi >= len(ops) {
+			return format, ops, false // explicit operand indexes, * widths, missing operands: left alone
+		}
+		op := ops[oi]
+		oi++
+		if j == i+1 && (format[j] == 's' || format[j] == 'v') && op.Op == "iface" && len(op.Args) == 1 {
+			if k, ok := op.Args[0].IsStringConst(); ok {
+				if b, isB := op.Args[0].Type.Underlying().(*types.Basic); isB && b.Info()&types.IsString != 0 {
+					out.WriteString(strings.ReplaceAll(k, "%", "%%"))
+					changed = true
+					i = j
+					continue
+				}
+			}
+		}
+		out.WriteString(format[i : j+1])
+		rest = append(rest, op)
+		i = j
+	}
+	if oi != len(ops) {
+		return format, ops, false
+	}
+	return out.String(), rest, changed
+}
+
+// knownLen: the length of a slice value built on this path, -1 when it is not known.
+func knownLen(t *Term) int64 {
+	switch t.Op {
+	case "makeslice":
+		if len(t.Args) == 1 {
+			if n, ok := t.Args[0].IsIntConst(); ok {
+				return n
+			}
+		}
+	case "slicelit":
+		return int64(len(t.Args))
+	case "const":
+		if t.Cval == nil {
+			if _, isSlice := t.Type.Underlying().(*types.Slice); isSlice {
+				return 0
+			}
+		}
+	case "append":
+		if len(t.Args) == 2 && t.Args[1].Op == "slicelit" {
+			if b := knownLen(t.Args[0]); b >= 0 {
+				return b + int64(len(t.Args[1].Args))
+			}
+		}
+	}
+	return -1
+}
+
+// appendElem: element n of append(base, e0, e1, ...) when the length of base is known; nil when it cannot be told.
+func appendElem(t *Term, n int64) *Term {
+	if t.Op != "append" || len(t.Args) != 2 || t.Args[1].Op != "slicelit" || n < 0 {
+		return nil
+	}
+	b := knownLen(t.Args[0])
+	if b < 0 {
+		return nil
+	}
+	if n >= b {
+		if int(n-b) < len(t.Args[1].Args) {
+			return t.Args[1].Args[n-b]
+		}
+		return nil
+	}
+	switch t.Args[0].Op {
+	case "append":
+		return appendElem(t.Args[0], n)
+	case "slicelit":
+		return t.Args[0].Args[n]
+	}
+	return nil
+}
+
+// extAsSuffix: filepath.Ext(name) == ".ext" (or path.Ext) says exactly what strings.HasSuffix(name, ".ext") says when the
+// constant is a dot followed by characters that are neither a dot nor a separator: the extension starts at the last dot of
+// the last path element. The comparison is given the form of the suffix test, so that rules know one spelling.
+func extAsSuffix(x, y *Term, typ types.Type) *Term {
+	if _, isK := x.IsStringConst(); isK {
+		x, y = y, x
+	}
+	k, isK := y.IsStringConst()
+	if !isK || len(k) < 2 || k[0] != '.' || strings.ContainsAny(k[1:], "./\\") {
+		return nil
+	}
+	if x.Op != "call" || len(x.Args) != 1 || !(strings.HasPrefix(x.Aux, "path/filepath.Ext") || strings.HasPrefix(x.Aux, "path.Ext")) {
+		return nil
+	}
+	return &Term{Op: "call", Aux: "strings.HasSuffix", Args: []*Term{x.Args[0], y}, Type: typ}
 }
 
 // componentOf: a is the address of a field / element (at any depth) of the variable whose address prints as key. A whole
